@@ -113,7 +113,8 @@ func (h H5RefArrayType) Write(data data.NDArrayType) error {
 	}
 	defer f.Close()
 
-	ds, err := openOrCreateDataset(f, h.Dataset, data.Shape(), data.Get(data.NewIndex(0)), false)
+	var exampleValue ArrayType
+	ds, err := openOrCreateDataset(f, h.Dataset, data.Shape(), exampleValue, false)
 	if err != nil {
 		return err
 	}
